@@ -5,6 +5,8 @@
 //! ops:
 //!   A,<type>,<kind>,<klen>,<kseed>,<klen2>,<kseed2>,<llen>,<lseed>,<nul>[,<w>]
 //!        allocate_opt; kind n = no key, o = key_opt(klen,kseed), f = key_func(klen,kseed),
+//!        s = key_func(klen,kseed) that also takes a reader snapshot (for_each ids, counter_state of every slot)
+//!            while it runs -> observation `OSnap res val_after ids [(snapshot ids, state of the id being allocated)]`,
 //!        b = both (key_opt(klen,kseed), key_func(klen2,kseed2)); label of llen bytes, byte <nul> is 0 (-1: none);
 //!        w = 2, 3, 4: the label is llen BYTES of UTF-8 made of w-byte characters (mk_label_u)
 //!   F,<id>          free
@@ -19,6 +21,7 @@ use aeron_rs::concurrent::counters::{CountersManager, CountersReader, MAX_KEY_LE
 use aeron_rs::concurrent::position::{ReadablePosition, UnsafeBufferPosition};
 use aeron_rs::heartbeat_timestamp;
 use aeron_rs::utils::errors::{AeronError, IllegalArgumentError};
+use std::cell::RefCell;
 use std::sync::atomic::{AtomicU64, Ordering};
 use vcommon::catch;
 
@@ -251,7 +254,20 @@ fn case_seq(parts: &[&str]) -> String {
                     }
                     b.put_bytes(0, &fkey)
                 };
+                // kind "s": the key callback writes its key and then does what a concurrent reader would do at that
+                // instant: it enumerates the counters and reads the state word of every slot, over the same buffers
+                let snap: RefCell<Option<(String, Vec<String>)>> = RefCell::new(None);
+                let skey = key.clone();
+                let snap_fn = |b: &mut AtomicBuffer| {
+                    b.put_bytes(0, &skey);
+                    let ids = ids_obs(&reader);
+                    let states: Vec<String> = (0..nm.max(nv))
+                        .map(|i| cres(catch(|| reader.counter_state(i as i32)), |v| v.to_string()))
+                        .collect();
+                    *snap.borrow_mut() = Some((ids, states));
+                };
                 let r = catch(|| match kind {
+                    "s" => mgr.allocate_opt(type_id, None, Some(&snap_fn), &label),
                     "n" => mgr.allocate_opt(type_id, None, Option::<fn(&mut AtomicBuffer)>::None, &label),
                     "o" => mgr.allocate_opt(type_id, Some(&key[..]), Option::<fn(&mut AtomicBuffer)>::None, &label),
                     "f" => mgr.allocate_opt(type_id, None, Some(&key_fn), &label),
@@ -265,6 +281,24 @@ fn case_seq(parts: &[&str]) -> String {
                     }
                     _ => "COk (0)".to_string(),
                 };
+                if kind == "s" {
+                    let snap_s = match (&r, snap.borrow().as_ref()) {
+                        (Ok(Ok(id)), Some((ids, states))) => format!(
+                            "[({}, {})]",
+                            ids,
+                            states.get(*id as usize).cloned().unwrap_or_else(|| "CErr IdOutOfRange".to_string())
+                        ),
+                        (_, Some((ids, _))) => format!("[({}, COk (0))]", ids),
+                        _ => "[]".to_string(),
+                    };
+                    let res = cres(r, |v| v.to_string());
+                    let panicked = res == "CPanic";
+                    out.push(format!("OSnap ({}) ({}) ({}) {}", res, va, ids_obs(&reader), snap_s));
+                    if panicked {
+                        break;
+                    }
+                    continue;
+                }
                 (cres(r, |v| v.to_string()), va)
             }
             "F" => {
